@@ -929,7 +929,10 @@ func (x *Exec) checkFrame(fr *Frame, con *FuncContract, env *SpecEnv, st, pre *S
 		if i := strings.LastIndex(lab, "/"); i >= 0 {
 			lab = lab[i+1:]
 		}
-		x.emit(st, "frame", lab, TFalse, false, "an array never read at entry was forgotten by name (loop or callee frame) and is not in the assigns clause")
+		if os.Getenv("GOVC_DEBUG_FRAME") != "" {
+			fmt.Fprintf(os.Stderr, "FRAME by-name havoc not covered: %s (gen %v, base %v)\n", pfx, st.ghost["$havoc:"+pfx], st.ghost["$havocBase:"+pfx])
+		}
+		x.emit(st, "frame", lab, TFalse, false, "an array never read at entry ("+pfx+") was forgotten by name (loop or callee frame) and is not in the assigns clause")
 	}
 }
 
